@@ -8,3 +8,9 @@ import Lungo.Props.C18
 #print axioms Lungo.C18.resume_equivalent
 #print axioms Lungo.C18.seek_invalid_whence
 #print axioms Lungo.C18.delete_tracked_leaves_nothing
+#print axioms Lungo.C18.open_rejects_bad_chunk_size
+#print axioms Lungo.C18.open_accepts_good_chunk_size
+#print axioms Lungo.C18.upload_rejects_bad_chunk_size
+#print axioms Lungo.C18.upload_eq_uploadAll
+#print axioms Lungo.C18.write_never_diverges
+#print axioms Lungo.C18.write_never_diverges_after_open
